@@ -36,6 +36,11 @@ impl TryFrom<Value> for NumOrSpecial {
     fn try_from(value: Value) -> Result<Self, Self::Error> {
         match value {
             v @ (Value::Call(..) | Value::BinOp(..)) => Ok(Self::Special(v)),
+            Value::Paren(inner) => match Self::try_from(*inner.clone())? {
+                // Keep the parentheses around e.g. a `var()`.
+                Self::Special(_) => Ok(Self::Special(Value::Paren(inner))),
+                num => Ok(num),
+            },
             Value::Literal(s) if like_call_or_num(&s) => {
                 Ok(Self::Special(Value::Literal(s)))
             }
